@@ -34,6 +34,10 @@ impl<'a> WireFormat<'a> for MX<'a> {
     where
         Self: Sized,
     {
+        if *position + 2 > data.len() {
+            return Err(crate::SimpleDnsError::InsufficientData);
+        }
+
         let preference = u16::from_be_bytes(data[*position..*position + 2].try_into()?);
         *position += 2;
         let exchange = Name::parse(data, position)?;
